@@ -991,6 +991,13 @@ func (u *UDPSock) WriteTo(p []byte, addr net.Addr) (int, error) {
 	if !ok || ua == nil {
 		return 0, &net.OpError{Op: "write", Net: "udp", Addr: u.addr, Err: errors.New("invalid address")}
 	}
+	if ua.Port == 0 {
+		// sendto() to port 0 fails with EINVAL on Linux
+		u.net.mu.Lock()
+		u.net.stat("udp.write_port0_einval")
+		u.net.mu.Unlock()
+		return 0, &net.OpError{Op: "write", Net: "udp", Addr: ua, Err: syscall.EINVAL}
+	}
 	if u.group {
 		return u.writeFrom(p, ua, &net.UDPAddr{IP: u.node.IP, Port: u.addr.Port})
 	}
